@@ -293,5 +293,88 @@ pub fn run(mut run: Run) -> i32 {
             }
         }
     });
+    // picked larger configurations: (i) polygons with two or three holes whose bounding boxes overlap although the holes do not, against every lattice
+    // point and short segment of a 15x15 window; (ii) a hole touching the shell in the middle of an edge (and two members touching likewise), against
+    // every simple MultiLineString of four or five members from a pool of segments, some of which pass exactly through the touch point (more boundary
+    // nodes than any small fast path holds)
+    {
+        use geo::{Geometry, LineString, MultiLineString, MultiPolygon, Point};
+        let hosts: Vec<Poly> = vec![
+            Poly { shell: vec![(0, 0), (14, 0), (14, 14), (0, 14)], holes: vec![vec![(2, 2), (12, 2), (2, 12)], vec![(11, 11), (6, 11), (11, 6)]] },
+            Poly { shell: vec![(0, 0), (14, 0), (14, 14), (0, 14)], holes: vec![vec![(11, 11), (6, 11), (11, 6)], vec![(2, 2), (12, 2), (2, 12)]] },
+            Poly { shell: vec![(0, 0), (14, 0), (14, 14), (0, 14)], holes: vec![vec![(1, 1), (9, 1), (1, 9)], vec![(13, 13), (5, 13), (13, 5)], vec![(10, 2), (12, 2), (12, 4)]] },
+        ];
+        for h in &hosts {
+            assert!(poly_valid(h), "host polygon invalid");
+        }
+        let nq = 15 * 15;
+        run.stage("holes-with-overlapping-boxes", hosts.len() * nq * 3, |idx, acc| {
+            let h = &hosts[idx / (nq * 3)];
+            let (q, form) = ((idx / 3) % nq, idx % 3);
+            let p: IP = ((q / 15) as i64, (q % 15) as i64);
+            let (ag, g): (AG, Geometry<f64>) = match form {
+                0 => (AG::Pts(vec![p]), Geometry::Point(Point(c(p)))),
+                1 => (AG::Lines(vec![vec![p, (p.0 + 1, p.1)]]), Geometry::Line(geo::Line::new(c(p), c((p.0 + 1, p.1))))),
+                _ => (AG::Lines(vec![vec![p, (p.0, p.1 + 1), (p.0 + 1, p.1 + 1)]]), Geometry::LineString(ls(&[p, (p.0, p.1 + 1), (p.0 + 1, p.1 + 1)]))),
+            };
+            let hag = AG::Polys(vec![h.clone()]);
+            let hg = Geometry::Polygon(poly(h));
+            let truth = mstr(&de9im(&hag, &ag));
+            let truth_t = mstr(&de9im(&ag, &hag));
+            acc.class(format!("overlapping-hole-boxes form{} {}", form, truth));
+            acc.evals += 2;
+            let got = guard(|| relate_concrete(&hg, &g)).unwrap_or_else(|e| format!("panic:{}", e));
+            let got_t = guard(|| relate_concrete(&g, &hg)).unwrap_or_else(|e| format!("panic:{}", e));
+            if got != truth || got_t != truth_t {
+                acc.viol(format!("relate of a polygon whose holes have overlapping bounding boxes with a {} true={} got={}", ["Point", "Line", "LineString"][form], truth, got), idx, || json!({"polygon": format!("{:?}", hg), "other": format!("{:?}", g), "true": truth, "got": got, "true_transposed": truth_t, "got_transposed": got_t}));
+            }
+        });
+        // (ii)
+        let touch_hosts: Vec<(AG, Geometry<f64>)> = {
+            let a = Poly { shell: vec![(0, 0), (8, 0), (8, 8), (0, 8)], holes: vec![vec![(4, 0), (6, 2), (2, 2)]] };
+            let (t1, t2) = (Poly { shell: vec![(0, 0), (8, 0), (4, 4)], holes: vec![] }, Poly { shell: vec![(4, 4), (8, 8), (0, 8)], holes: vec![] });
+            let b = Poly { shell: vec![(0, 0), (8, 0), (8, 8), (0, 8)], holes: vec![vec![(8, 4), (6, 6), (6, 2)]] };
+            assert!(poly_valid(&a) && poly_valid(&b) && multipoly_valid(&[t1.clone(), t2.clone()]));
+            vec![
+                (AG::Polys(vec![a.clone()]), Geometry::Polygon(poly(&a))),
+                (AG::Polys(vec![b.clone()]), Geometry::Polygon(poly(&b))),
+                (AG::Polys(vec![t1.clone(), t2.clone()]), Geometry::MultiPolygon(MultiPolygon(vec![poly(&t1), poly(&t2)]))),
+            ]
+        };
+        let pool: Vec<Vec<IP>> = vec![
+            vec![(2, -2), (4, 0), (5, 1)], vec![(4, -3), (4, 0)], vec![(10, 4), (8, 4), (7, 4)], vec![(3, 3), (4, 4), (5, 5)], vec![(1, 5), (3, 7)], vec![(9, 9), (11, 9)],
+            vec![(-2, 1), (-1, 3)], vec![(1, 6), (1, 7)], vec![(5, 6), (7, 7)], vec![(10, -1), (12, 1)], vec![(-3, -3), (-1, -3)], vec![(3, 5), (5, 3)],
+            // through a touch point in the middle of a segment (a proper crossing of the other operand's boundary at one of its nodes)
+            vec![(3, -2), (5, 2)], vec![(6, 3), (10, 5)], vec![(4, 2), (4, 6)],
+        ];
+        let mut combos: Vec<Vec<usize>> = vec![];
+        for k in [4usize, 5, 6] {
+            for sub in crate::enumr::subsets(&(0..pool.len() as i64).map(|i| (i, 0)).collect::<Vec<IP>>(), k) {
+                let idxs: Vec<usize> = sub.iter().map(|p| p.0 as usize).collect();
+                let members: Vec<Vec<IP>> = idxs.iter().map(|&i| pool[i].clone()).collect();
+                if mls_simple(&members) {
+                    combos.push(idxs);
+                }
+            }
+        }
+        let step = run.ctx.pick(11, 1);
+        let combos: Vec<Vec<usize>> = combos.into_iter().step_by(step).collect();
+        let nc = combos.len();
+        run.stage("touching-rings-vs-many-member-multilinestrings", touch_hosts.len() * nc, |idx, acc| {
+            let (hag, hg) = &touch_hosts[idx / nc];
+            let members: Vec<Vec<IP>> = combos[idx % nc].iter().map(|&i| pool[i].clone()).collect();
+            let mag = AG::Lines(members.clone());
+            let mg = Geometry::MultiLineString(MultiLineString(members.iter().map(|m| ls(m)).collect::<Vec<LineString<f64>>>()));
+            let truth = mstr(&de9im(hag, &mag));
+            let truth_t = mstr(&de9im(&mag, hag));
+            acc.class(format!("touching rings vs {}-member MLS {}", members.len(), truth));
+            acc.evals += 2;
+            let got = guard(|| relate_concrete(hg, &mg)).unwrap_or_else(|e| format!("panic:{}", e));
+            let got_t = guard(|| relate_concrete(&mg, hg)).unwrap_or_else(|e| format!("panic:{}", e));
+            if got != truth || got_t != truth_t {
+                acc.viol(format!("relate of touching rings with a MultiLineString of {} members true={} got={}", members.len(), truth, got), idx, || json!({"areal": format!("{:?}", hg), "lines": format!("{:?}", mg), "true": truth, "got": got, "true_transposed": truth_t, "got_transposed": got_t}));
+            }
+        });
+    }
     run.finish()
 }
